@@ -36,7 +36,8 @@ import mapgen
 import terms
 
 PID = "C03"
-PROPS = ["PfModel.Props.C03", "PfModel.Props.C03Part", "PfModel.Props.C03Exec", "PfModel.Props.C03Ops"]
+PROPS = ["PfModel.Props.C03", "PfModel.Props.C03Part", "PfModel.Props.C03Exec", "PfModel.Props.C03Ops", "PfModel.Props.C03Count",
+         "PfModel.Props.C03CountPart", "PfModel.Props.C03Slice"]
 DRIVER = "C03"
 RULE = ("pipelines from harness/mapgen.py (1-4 functions: element-wise/zip, outer product, partial and full reductions, internal axes, "
         "'... -> v[j]' producers, tuple outputs, plain functions; axis sizes 1-3); per pipeline: for every generation with <= 5 submitted "
@@ -48,6 +49,11 @@ RULE = ("pipelines from harness/mapgen.py (1-4 functions: element-wise/zip, oute
         "fixed parts — int, slice, two axes — then a full run; full then full) under the permuting executor / thread pools / map_async, each "
         "part compared with PF.SchedP.runPartSched played on the observed schedule; MALFORMED executor configurations (executor with "
         "parallel=False, empty dict, dict without default, a single name of a tuple output as key) compared with the Lean rule; "
+        "PARITY (round 9): per history pipeline one request (fixed_indices int / slice / two axes / none, storage, executors, schedule seed) run through "
+        "Pipeline.map AND Pipeline.map_async on fresh folders, the two real runs compared with each other, then each with runPartSched sync | gather; "
+        "AXIS-1 (round 9): a family of pipelines whose ':'-sliced axis has length 1 (outer product reduced along either axis, internal axis of length 1, "
+        "tuple output) under dict / file_array / shared_memory_dict and per-output overrides of the producer; COUNTS (round 9): per replayed run the "
+        "number of invocations per function and of futures per (function, index) against callCount / demanded / taskCount of the Lean model; "
         "non-trivial = some generation submits >= 2 tasks; distinct by (pipeline, inputs, configuration / history, schedule)")
 ASSUMPTIONS = ["interleavings *inside* a task body (two workers inside cloudpickle.dump, Manager proxy round-trips, os.listdir racing a write) "
                "are exercised by the real pools but not modelled: the theorem covers every interleaving at the granularity of task bodies "
@@ -354,6 +360,8 @@ def judge(ctx, desc, cfg, obs, model):
     ctx.count("run:" + cfg_key(cfg))
     if cfg.get("matrix"):
         ctx.count("matrix-cell")
+    if cfg.get("axis1"):
+        ctx.count("axis1-storage:" + (storage_key(cfg) if isinstance(cfg["storage"], str) else "override:" + "+".join(f"{k or 'default'}={v}" for k, v in sorted(cfg["storage"].items()))))
     ctx.count("storage:" + storage_key(cfg) + ("" if cfg.get("folder", True) else "/no-folder"))
     ctx.record({"desc": desc, "cfg": cfg}, nontrivial=any(sum(g.values()) >= 2 for g in gens))
     if obs.get("hang"):
@@ -443,6 +451,8 @@ def judge_sched(ctx, desc, cfg, obs, model, resp):
     ctx.count("sched-replayed")
     if not resp.get("unique_outputs") or not resp.get("equal") or not resp.get("barrier", False):
         raise AssertionError(f"model: scheduled run differs from the sequential run on a generated case: {json.dumps(case)[:2000]}")
+    if not judge_counts(ctx, case, desc, obs, model, resp):
+        return
     want = [canon_call(n, kw) for tr in resp["trace"] for n, kw in tr["calls"]]
     got = [[c[0], c[1]] for c in obs["log"] if c[2] == "call"]
     if got != want:
@@ -455,6 +465,64 @@ def judge_sched(ctx, desc, cfg, obs, model, resp):
     if got_d != want_d:
         ctx.violation(case, "dump events differ from the model played on the same schedule", found_input=False,
                       item="correspondence:dump-events", impl={"dumps": got_d}, model={"dumps": want_d})
+
+
+def judge_counts(ctx, case, desc, obs, model, resp):
+    """Round 9 — the COUNT clause ("each function is invoked exactly once per output index, once in total if it has no MapSpec")
+    against `Props/C03Count.lean`: `counts` = per function (name, callCount in the model's execution-order log under the observed
+    schedule, `demanded`), `tasks` = per submitted future (generation, function position, future position, taskCount).  The
+    implementation's numbers: entries of the cross-process call log per function name; per (function, index) the futures handed
+    to the executors (their labels carry the index)."""
+    ctx.count("counts-checked")
+    if resp.get("stray") or any(got != dem for _, got, dem in resp["counts"]) or any(t[3] != 1 for t in resp["tasks"]):
+        raise AssertionError(f"model: counts under a valid schedule differ from the demanded ones (C03_count_calls / C03_count_tasks): {json.dumps(case)[:1500]}")
+    seen = {}
+    for c in obs["log"]:
+        if c[2] == "call":
+            seen[c[0]] = seen.get(c[0], 0) + 1
+    for name, _, dem in resp["counts"]:
+        ctx.count("count:mapped" if dem != 1 or is_mapped(next(f for f in desc["funcs"] if f["name"] == name)) else "count:single")
+        if seen.get(name, 0) != dem:
+            ctx.violation(case, f"`{name}` was invoked {seen.get(name, 0)} times; once per output index (once in total without MapSpec) is {dem}",
+                          impl={"calls_per_function": seen}, model={"demanded": {n: d for n, _, d in resp["counts"]}})
+            return False
+    by_label = {olabel(f): f for f in desc["funcs"]}
+    want = {}
+    for g, j, k, _ in resp["tasks"]:
+        key = (g, model["gens"][g][j], k)
+        want[key] = want.get(key, 0) + 1
+    got = {}
+    for g, b in enumerate(obs["schedule"]):
+        for lab, idx in b["labels"]:
+            key = (g, by_label[lab]["name"] if lab in by_label else lab, idx or 0)
+            got[key] = got.get(key, 0) + 1
+    if got != want:
+        extra = sorted(k for k in set(got) | set(want) if got.get(k, 0) != want.get(k, 0))[:6]
+        ctx.violation(case, f"the futures handed to the executors are not exactly one per (function, output index): (generation, function, index) {extra} "
+                      f"submitted {[got.get(k, 0) for k in extra]} times, demanded {[want.get(k, 0) for k in extra]}",
+                      impl={"submitted": sorted([list(k), v] for k, v in got.items())}, model={"tasks": resp["tasks"]})
+        return False
+    return True
+
+
+def judge_part_counts(ctx, case, obs, mp, what):
+    """Partial / resumed / async runs: per function the number of invocations in the real call log against `demandedP` (one per selected
+    missing index; an un-mapped function once unless its outputs are stored) — `C03_part_count_calls`.  True when clean."""
+    ctx.count("part-counts-checked")
+    if any(got != dem for _, got, dem in mp["counts"]):
+        raise AssertionError(f"model: counts of a scheduled partial run differ from the demanded ones (C03_part_count_calls): {json.dumps(case)[:1500]}")
+    seen = {}
+    for c in obs["log"]:
+        if c[2] == "call":
+            seen[c[0]] = seen.get(c[0], 0) + 1
+    for name, _, dem in mp["counts"]:
+        ctx.count("part-count:" + ("zero" if dem == 0 else "one" if dem == 1 else "many"))
+        if seen.get(name, 0) != dem:
+            ctx.violation(case, f"{what}: `{name}` was invoked {seen.get(name, 0)} times; once per selected index that is not stored yet (an un-mapped "
+                          f"function: once unless its outputs are stored) is {dem}", impl={"calls_per_function": seen},
+                          model={"demanded": {n: d for n, _, d in mp["counts"]}})
+            return False
+    return True
 
 
 # ------------------------------------------------------------------------------------------------ executor selection (Lean rule)
@@ -731,6 +799,8 @@ def judge_history(ctx, desc, hist, obs_list, model, resp, replayed, base):
             return
         if "err" in obs:
             return
+        if not judge_part_counts(ctx, pcase, obs, mp, f"part {k}"):
+            return
         # once per selected missing index is `calls == want["calls"]` above; barrier inside the part
         gen_of = {n: g for g, names in enumerate(model["gens"]) for n in names}
         expected = [0] * len(model["gens"])
@@ -786,6 +856,122 @@ def history_clause(hist, obs_list, model):
         return ("over the whole history a function was not invoked exactly once per output index (an element was recomputed or skipped)",
                 {"calls": allc}, {"calls": model["calls"]})
     return None
+
+
+# ------------------------------------------------------------------------------------------------ parity: map vs map_async, same request
+def gen_fixed(rng, desc):
+    """A `fixed_indices` the validation accepts (axes nobody reduces): an int, a slice, sometimes a second axis; None when there is no such axis."""
+    free = [a for a in free_axes(desc) if desc["sizes"].get(a, 1) >= 1]
+    if not free:
+        return None
+    a = rng.choice(free)
+    n = desc["sizes"].get(a, 1)
+    if rng.random() < 0.55:
+        fx = [[a, rng.randrange(n)]]
+    else:
+        m = rng.randrange(n + 1)
+        fx = [[a, {"sl": rng.choice([[None, m, None], [m, None, None], [None, None, 2], [None, None, -1]])}]]
+    if len(free) > 1 and rng.random() < 0.3:
+        b = rng.choice([x for x in free if x != a])
+        fx.append([b, rng.randrange(desc["sizes"].get(b, 1))])
+    return fx
+
+
+def gen_parity(rng, desc):
+    kind = rng.choice(["perm", "perm", "perm", "thread"])
+    return {"fixed": gen_fixed(rng, desc), "kinds": split_kinds(rng, desc, kind, kind) if rng.random() < 0.3 else {"": kind},
+            "storage": storages_for(rng, desc, rng.randrange(6), False), "order_seed": rng.randrange(10**9), "workers": rng.randint(2, 4),
+            "delay": rng.randrange(10**6) if kind == "thread" else None}
+
+
+def parity_cfg(par, entry):
+    cfg = {"kinds": par["kinds"], "entry": entry, "storage": par["storage"], "folder": True, "cleanup": True, "fixed": par["fixed"],
+           "order_seed": par["order_seed"], "reload": False, "workers": par.get("workers", 3)}
+    if par.get("delay") is not None:
+        cfg["delay"] = par["delay"]
+    return cfg
+
+
+def run_parity(desc, par, base):
+    """The SAME request (pipeline, inputs, fixed_indices, storage, executors, schedule seed) through `Pipeline.map` and through
+    `Pipeline.map_async`, each on its own fresh run folder."""
+    built = Built(desc)
+    return {entry: run_impl(desc, parity_cfg(par, entry), base, built) for entry in ("map", "async")}
+
+
+def parity_requests(desc, par, obs, model):
+    """One `part.sched` request per entry point: a one-part history on an empty folder, awaited `sync` / `gather`, on the observed schedule."""
+    out = []
+    for entry in ("map", "async"):
+        hist = {"parts": [par["fixed"]], "kinds": par["kinds"], "storage": par["storage"], "entry": entry}
+        out.append(history_request(desc, hist, [obs[entry]], model)[0])
+    return out
+
+
+def _with_calls(o):
+    return o if "err" in o or o.get("hang") else dict(o, calls=sorted(([c[0], c[1]] for c in o["log"] if c[2] == "call"), key=repr))
+
+
+def judge_parity(ctx, desc, par, obs, model, resps, base):
+    """The clause "Pipeline.map and Pipeline.map_async return equal results and leave equal stored data … each function is invoked
+    exactly once per output index" evaluated DIRECTLY on the two real runs of the same request (seeded change C03-s4-A: the async driver
+    dropped `fixed_indices`), then each run against `PF.SchedP.runPartSched sync | gather`."""
+    case = {"desc": desc, "parity": par}
+    fx = par["fixed"]
+    ctx.count("parity:" + ("full" if fx is None else "+".join("int" if isinstance(sel, int) else "slice" for _, sel in fx))
+              + "/" + "+".join(sorted(set(par["kinds"].values()))))
+    ctx.count("parity-storage:" + storage_key(par))
+    a, b = obs["map"], obs["async"]
+    ntasks = max(sum(len(bt["order"]) for bt in (o.get("schedule") or [])) for o in (a, b))
+    ctx.record(case, nontrivial=ntasks >= 2)
+    for entry, o in obs.items():
+        if o.get("hang"):
+            ctx.violation(case, f"the run through `{entry}` hangs", impl={"log": o.get("log")})
+            return
+    if ("err" in a) != ("err" in b):
+        bad = a if "err" in a else b
+        ctx.violation(case, f"the same request succeeds through one of Pipeline.map / Pipeline.map_async and fails through the other "
+                      f"({bad['err']}: {bad.get('msg', '')[:100]})", impl={"map": a.get("err"), "async": b.get("err")})
+        return
+    if "err" in a:
+        ctx.count("parity:refused-by-both")
+        if a["err"] != b["err"]:
+            ctx.violation(case, f"map fails with {a['err']}, map_async with {b['err']}", found_input=False, item="correspondence:parity-failure-class")
+        return
+    d = part_diff(b, _with_calls(a))
+    if d is not None:
+        ctx.violation(case, f"Pipeline.map and Pipeline.map_async differ on the same pipeline, inputs, fixed_indices, storage and schedule seed: {d} "
+                      "(compared: returned arrays, stored data, present elements, call multiset; reference = map)",
+                      impl={k2: b.get(k2) for k2 in ("outputs", "stored", "present")}, model={k2: a.get(k2) for k2 in ("outputs", "stored", "present")})
+        return
+    for entry, resp in zip(("map", "async"), resps):
+        o = obs[entry]
+        mp = resp["parts"][0]
+        if "not_perm" in mp:
+            ctx.violation(case, f"`{entry}`: the tasks handed to the executors are not one per selected index (plus one per un-mapped function)",
+                          found_input=False, item="correspondence:submitted-tasks-partial", impl={"schedule": o.get("schedule")}, model={"not_perm": mp["not_perm"]})
+            return
+        if not resp.get("unique_outputs") or not mp.get("equal") or not mp.get("modes_agree") or \
+                ("err" not in mp["part"] and not (mp.get("barrier") and mp.get("ops_equal"))):
+            raise AssertionError(f"model: scheduled partial run differs from the sequential one / sync and gather disagree: {json.dumps(case)[:1500]}")
+        d = part_diff(o, model_part(mp["part"]))
+        if d is not None:
+            folder = tempfile.mkdtemp(dir=base)
+            try:
+                seq = run_seq_part(desc, {"storage": par["storage"]}, fx, Built(desc), os.path.join(folder, "run"))
+            finally:
+                shutil.rmtree(folder, ignore_errors=True)
+            d2 = part_diff(o, _with_calls(seq))
+            if d2 is not None:
+                ctx.violation(case, f"the run through `{entry}` differs from the same request run with parallel=False (real code): {d2}",
+                              impl={k2: o.get(k2) for k2 in ("outputs", "stored", "present")}, model={k2: seq.get(k2) for k2 in ("outputs", "stored", "present", "err")})
+            else:
+                ctx.violation(case, f"`{entry}`: {d} (map, map_async and the sequential real run agree with each other, not with the model)", found_input=False,
+                              item="correspondence:parity-model", impl={k2: o.get(k2) for k2 in ("outputs", "stored", "present")}, model=model_part(mp["part"]))
+            return
+        if not judge_part_counts(ctx, case, o, mp, f"through `{entry}`"):
+            return
+    ctx.count("parity:agree")
 
 
 # ------------------------------------------------------------------------------------------------ a failing task: sync vs async
@@ -896,12 +1082,80 @@ def _lead_internal():
     return {"funcs": [f0, f1], "inputs": [["x0", {"arr": [[2], elems]}]], "input_kinds": {"x0": "array"}, "internal": [], "sizes": {"i": 2, "j": 2, "k": 1}}
 
 
+def _root(name, shape):
+    elems = [{"f": "in", "k": [["n", {"s": name}], ["at", {"arr": [[len(ix)], list(ix)]}]]} for ix in itertools.product(*map(range, shape))]
+    return [name, {"arr": [list(shape), elems]}]
+
+
+def _fn(name, ins, outs, ret=None, internal=None):
+    ms = {"inputs": [[p, list(ax)] for p, ax in ins], "outputs": [[o, list(ax)] for o, ax in outs]}
+    return {"name": name, "params": [[p, p] for p, _ in ins], "outputs": [o for o, _ in outs], "mapspec": ms, "mapspec_str": mapgen.spec_str(ms),
+            "autogen": False, "ret": ret, "internal": internal, "defaults": [], "bound": []}
+
+
+def axis1_family():
+    """Pipelines in which an axis that a consumer takes with ':' has LENGTH 1 (seeded change C03-s4-B: `DictArray.__getitem__` squeezed
+    it away, `FileArray` kept it): an outer product reduced along either axis, an internal axis of length 1, a length-1 array taken whole
+    beside a mapped one, a tuple output.  Every storage backend must hand the consumer an array with the sliced axis still there."""
+    out = []
+    for ni, nj in ((3, 1), (1, 2), (1, 1), (2, 1)):
+        for drop in (1, 0):
+            cons_in = ["i", None] if drop == 1 else [None, "j"]
+            keep = "i" if drop == 1 else "j"
+            out.append({"funcs": [_fn("f0", [("x0", ["i"]), ("x1", ["j"])], [("y0", ["i", "j"])]),
+                                  _fn("f1", [("y0", cons_in)], [("y1", [keep])])],
+                        "inputs": [_root("x0", [ni]), _root("x1", [nj])], "input_kinds": {"x0": "list", "x1": "array"}, "internal": [],
+                        "sizes": {"i": ni, "j": nj, "k": 1}, "axis1": f"outer{ni}x{nj}/drop{drop}"})
+    for ni in (2, 1):           # an internal axis of length 1, then reduced with ':'
+        out.append({"funcs": [_fn("f0", [("x0", ["i"])], [("y0", ["i", "k"])], ret=[1], internal=[1]),
+                              _fn("f1", [("y0", ["i", None])], [("y1", ["i"])])],
+                    "inputs": [_root("x0", [ni])], "input_kinds": {"x0": "array"}, "internal": [], "sizes": {"i": ni, "j": 1, "k": 1},
+                    "axis1": f"internal1/{ni}"})
+        out.append({"funcs": [_fn("f0", [("x0", ["i"])], [("y0", ["k", "i"])], ret=[1], internal=[1]),
+                              _fn("f1", [("y0", [None, "i"])], [("y1", ["i"])])],
+                    "inputs": [_root("x0", [ni])], "input_kinds": {"x0": "array"}, "internal": [], "sizes": {"i": ni, "j": 1, "k": 1},
+                    "axis1": f"lead-internal1/{ni}"})
+    # a length-1 array taken with ':' beside a mapped parameter; a tuple output reduced along its length-1 axis
+    out.append({"funcs": [_fn("f0", [("x0", ["j"])], [("y0", ["j"])]), _fn("f1", [("y0", [None]), ("x1", ["i"])], [("y1", ["i"])])],
+                "inputs": [_root("x0", [1]), _root("x1", [2])], "input_kinds": {"x0": "list", "x1": "list"}, "internal": [],
+                "sizes": {"i": 2, "j": 1, "k": 1}, "axis1": "whole1-beside-mapped"})
+    out.append({"funcs": [_fn("f0", [("x0", ["i"]), ("x1", ["j"])], [("y0a", ["i", "j"]), ("y0b", ["i", "j"])]),
+                          _fn("f1", [("y0a", ["i", None]), ("y0b", ["i", None])], [("y1", ["i"])])],
+                "inputs": [_root("x0", [2]), _root("x1", [1])], "input_kinds": {"x0": "array", "x1": "list"}, "internal": [],
+                "sizes": {"i": 2, "j": 1, "k": 1}, "axis1": "tuple/outer2x1"})
+    return out
+
+
+AXIS1_STORAGES = ["dict", "file_array", {"": "file_array", "f0": "dict"}, {"": "dict", "f0": "file_array"}, "shared_memory_dict",
+                  {"": "file_array", "f0": "shared_memory_dict"}, {"": "shared_memory_dict", "f1": "dict"}]
+
+
+def axis1_cfgs(rng, desc, sizes, thorough, slot):
+    """Every storage backend and the per-output overrides of the producer, under the permuting executor (one fresh random order each),
+    a thread pool and map_async.  Quick: the two shared-memory assignments that need a Manager process on one family member per run."""
+    cfgs = []
+    for k, st in enumerate(AXIS1_STORAGES):
+        if "shared_memory_dict" in (st if isinstance(st, str) else "+".join(st.values())) and not (thorough or (slot == 0 and k == 4)):
+            continue
+        kind = "thread" if k % 3 == 2 else "perm"
+        cfg = {"kinds": {"": kind}, "entry": "async" if k % 4 == 3 else "map", "storage": copy.deepcopy(st), "folder": True, "axis1": True,
+               "orders": [rng.sample(range(m), m) for m in sizes]}
+        if kind == "thread":
+            cfg.update(workers=2, delay=rng.randrange(10**6))
+        cfgs.append(cfg)
+    return cfgs
+
+
 # (desc, cfg) pairs: the prototype pipeline under an interleaved reversed schedule with one executor per output and mixed
 # storages; past failures are appended here
 CORPUS: list = [(_chain(), {"kinds": {"f0": "perm", "f1": "perm", "f2": "perm"}, "entry": "map", "storage": {"": "dict", "f1": "file_array"},
                             "folder": True, "orders": [[5, 2, 4, 1, 3, 0], [1, 2, 0]]}),
                 (_lead_internal(), {"kinds": {"": "perm"}, "entry": "map", "storage": "dict", "folder": True, "orders": [[1, 0], [3, 1, 2, 0]]}),
-                (_lead_internal(), {"kinds": {"": "perm"}, "entry": "map", "storage": {"": "file_array", "f0": "dict"}, "folder": True, "orders": [[0, 1], [0, 3, 2, 1]]})]
+                (_lead_internal(), {"kinds": {"": "perm"}, "entry": "map", "storage": {"": "file_array", "f0": "dict"}, "folder": True, "orders": [[0, 1], [0, 3, 2, 1]]}),
+                # round 9: `y0[i, :] -> y1[i]` over an axis of length 1, producer in a dict (seeded change C03-s4-B), globally and as a per-output override
+                (axis1_family()[0], {"kinds": {"": "perm"}, "entry": "map", "storage": "dict", "folder": True, "orders": [[2, 0, 1], [1, 2, 0]]}),
+                (axis1_family()[0], {"kinds": {"": "perm"}, "entry": "async", "storage": {"": "file_array", "f0": "dict"}, "folder": True,
+                                     "orders": [[0, 2, 1], [2, 1, 0]]})]
 
 
 MALFORMED = ["seq+executor", "seq+dict", "seq+empty-dict", "par+empty-dict", "no-default", "no-default", "tuple-part-key", "tuple-part-key"]
@@ -1069,6 +1323,9 @@ def run(ctx):
                 if approx_tasks(d) >= 2 or rng.random() < 0.1:
                     break
             descs.append(d)
+        fam = axis1_family()                       # round 9: a ':'-sliced axis of length 1 under every storage backend
+        axis1_from = len(descs)
+        descs += fam if thorough else rng.sample(fam, 2)
         hist_descs = [copy.deepcopy(d) for d, _ in HISTORY_CORPUS]
         for _ in range(ctx.n(N_HIST_QUICK, 120)):
             while True:
@@ -1082,7 +1339,7 @@ def run(ctx):
         models = all_models[:len(descs)]
         hist_models = all_models[len(descs):len(descs) + len(hist_descs)]
         mal_models = all_models[len(descs) + len(hist_descs):]
-        sched_jobs, hist_jobs, mal_jobs, hangs = [], [], [], 0
+        sched_jobs, hist_jobs, mal_jobs, par_jobs, hangs = [], [], [], [], 0
         for di, (desc, model) in enumerate(zip(descs, models)):
             if "err" in model:
                 raise AssertionError(f"model refuses a generated case: {model} {desc}")
@@ -1092,6 +1349,9 @@ def run(ctx):
             cfgs = []
             if di < ncorp:
                 cfgs.append(copy.deepcopy(CORPUS[di][1]))
+            if di >= axis1_from:
+                ctx.count("axis1:" + desc["axis1"].split("/")[0].rstrip("0123456789x"))
+                cfgs += axis1_cfgs(rng, desc, sizes, thorough, di - axis1_from)
             # (a) the permuting executor
             for k, orders in enumerate(perm_orders(rng, sizes, 40 if thorough else 10)):
                 split = rng.random() < 0.25
@@ -1161,6 +1421,12 @@ def run(ctx):
                 hangs += any(o.get("hang") for o in obs_list)
                 req, replayed = history_request(desc, hist, obs_list, model)
                 hist_jobs.append((desc, hist, obs_list, model, req, replayed))
+            # round 9: the same request through both entry points
+            if hangs < 3:
+                par = gen_parity(rng, desc)
+                pobs = run_parity(desc, par, base)
+                hangs += any(o.get("hang") for o in pobs.values())
+                par_jobs.append((desc, par, pobs, model, parity_requests(desc, par, pobs, model)))
         for (desc, which), model in zip(mal, mal_models):
             if "err" in model:
                 raise AssertionError(f"model refuses a generated case: {model} {desc}")
@@ -1178,6 +1444,10 @@ def run(ctx):
             judge_malformed(ctx, case, obs, model, resp["r"])
         for (case, tags, _), resp in zip(exec_jobs, resps[n3:]):
             judge_exec(ctx, case, tags, resp["r"])
+        if par_jobs:
+            presps = ctx.lean([r for j in par_jobs for r in j[4]])
+            for q, (desc, par, pobs, model, _) in enumerate(par_jobs):
+                judge_parity(ctx, desc, par, pobs, model, [presps[2 * q]["r"], presps[2 * q + 1]["r"]], base)
         late = list(EXEC_JOBS)                      # executor selection of the history parts
         if late:
             for (case, tags, _), resp in zip(late, ctx.lean([j[2] for j in late])):
@@ -1196,6 +1466,18 @@ def replay(ctx, case):
             print("malformed-stream case:", case.get("malformed"), case.get("executor_keys"), "parallel =", case.get("parallel"))
             req = exec_request(case["desc"], None, model, parallel=case.get("parallel", True), executor=case.get("executor_keys", []))
             print("rule (exec.select):", ctx.lean([req])[0]["r"])
+            return
+        if "parity" in case:
+            par = case["parity"]
+            pobs = run_parity(case["desc"], par, base)
+            resps = ctx.lean(parity_requests(case["desc"], par, pobs, model))
+            print("fixed_indices:", par["fixed"], "storage:", par["storage"], "executors:", par["kinds"])
+            for entry, resp in zip(("map", "async"), resps):
+                o = pobs[entry]
+                print(f"--- through {entry}: schedule {o.get('schedule')}")
+                print("implementation:", {k2: v for k2, v in o.items() if k2 in ("outputs", "stored", "present", "err", "msg", "hang")})
+                print("calls:", sorted(([c[0], c[1]] for c in o.get("log", []) if c[2] == "call"), key=repr))
+                print("model:", resp["r"]["parts"][0].get("part") or resp["r"]["parts"][0])
             return
         if "history" in case:
             hist = case["history"]
